@@ -97,6 +97,10 @@ func (g *crashGen) value(class string) (tok string, digest string, n int) {
 		n = 4*1024*1024 + 1000 + g.r.Intn(300000)
 	case "halfmib":
 		n = 2*1024*1024 + 5000 + g.r.Intn(100000)
+	case "bigrec":
+		// one log record of 5-6 MiB: more than the 4 MiB write buffer of the log AND more than the 4 MiB read buffer
+		// of the replayer; the buffered writer hands the first 4 MiB to the kernel and keeps a tail of 1-2 MiB
+		n = 5*1024*1024 + g.r.Intn(1024*1024+1)
 	}
 	g.seedCtr++
 	seed := g.r.Next()%1000000007 + g.seedCtr
@@ -565,6 +569,75 @@ func crashGenSession(seed uint64, idx int, tier, flavour string, rank int) *cras
 			}
 		}
 		s.Ops = out
+	}
+	return s
+}
+
+// crashBigRecordSeed derives the SECOND random stream (sessions added after the first generation of the stream draw
+// from it, so that the sessions 0..n-1 of a seed stay what they were)
+const crashBigRecordSeed = 0x6269677265636f72
+
+// crashGenBigRecordSession: the session every run of the flavours sync and async ends with (index n, in the quick
+// tier too). One put whose log record is larger than the 4 MiB buffer of the log writer and than the 4 MiB buffer of
+// the reader that replays it (incompressible value of 5-6 MiB): the buffered writer cuts the record, the first 4 MiB
+// reach the file with one write call, the tail of 1-2 MiB stays in the process (asynchronous log: until the next
+// rotation or Close; synchronous log: until the flush that precedes the fsync of the same put). Every image in between
+// holds a log file that ends inside a record the replayer cannot buffer as a whole. Kept short: every image carries
+// the big file.
+func crashGenBigRecordSession(seed uint64, idx int, tier, flavour string) *crashSession {
+	r := NewRng(seed^crashBigRecordSeed, uint64(idx))
+	s := &crashSession{Idx: idx, Flavour: flavour, Profile: "bigrecord", MaxStr: 4*1024*1024 + 70000}
+	g := &crashGen{r: r, tier: tier, s: s, current: map[string]bool{}, memKeys: map[string]bool{}, lastRot: map[string]bool{}}
+	nk := 4 + r.Intn(3)
+	for i := 0; i < nk; i++ {
+		k := []byte(fmt.Sprintf("k%d", i+1))
+		if i == nk-1 && r.Chance(40) {
+			k = []byte{0xff, 0x00, 'k', byte(i)}
+		}
+		s.Keys = append(s.Keys, hex.EncodeToString(k))
+	}
+	async := flavour == "async"
+	g.add("open", g.openLine(async, "bigvalue")) // memstore limit 1 GiB: no rotation by size
+	// what the log holds in front of the big record (none: the record starts right behind the file header)
+	for i := r.Intn(4); i > 0; i-- {
+		if r.Chance(20) && len(g.current) > 0 {
+			g.del()
+		} else {
+			g.put("small")
+		}
+	}
+	k := g.key()
+	if !g.current[k] && r.Chance(60) {
+		g.putKey(k, "small") // the big put overwrites: the torn record must not hide the older value
+	}
+	g.putKey(k, "bigrec")
+	switch r.Intn(4) {
+	case 0:
+		// the process ends with the tail of the record still in its buffer (asynchronous log)
+	case 1:
+		// more records behind the torn one, in the buffer only (asynchronous log)
+		g.put("small")
+		if r.Chance(50) {
+			o := g.add("get", "get "+k)
+			o.Key, o.KeyTok = k, k
+		}
+	case 2:
+		// the rotation completes the record, the flusher writes the table and removes the log file
+		if r.Chance(60) {
+			g.put("small")
+		}
+		g.rotate()
+		g.waitflush()
+	default:
+		// Close completes the record, the next session replays nothing
+		if r.Chance(60) {
+			g.put("small")
+		}
+		g.add("close", "close")
+		g.add("open", g.openLine(async, "bigvalue"))
+		o := g.add("get", "get "+k)
+		o.Key, o.KeyTok = k, k
+		g.waitflush()
 	}
 	return s
 }
